@@ -191,7 +191,8 @@ def main():
             "has made progress": ["C09"],
         }
         # Reverting these alone no longer breaks anything: a later repair covers the same input.
-        masked = {"86ff219": "extern align(0) is now also rejected when embedded, by the lcm repair 79fa87e"}
+        masked = {"86ff219": "extern align(0) is now also rejected when embedded, by the lcm repair 79fa87e",
+                  "d2db2a1": "the glob pattern it escaped was replaced by a directory walk in 079114d"}
         for line in log:
             h, subject = line.split(" ", 1)
             if h in masked:
